@@ -53,6 +53,23 @@ SendListClause(e) ==
        THEN <<"C02.ListShape", "payloads transmitted out of order">>
   ELSE <<"ok", "">>
 
+NewOnes(air) == SelectSeq(air, LAMBDA p : p.new)
+\* the streaming idiom: write(write_only=True) several times with CE low, then CE high.  Every payload write() accepted
+\* (returned True for) goes out exactly once, in order; a refused one never does
+StreamClause(e) ==
+  LET n == Len(e.bufs)  D == [i \in 1..n |-> OnAir(C, e.bufs[i])]
+      Acc == SelectSeq([i \in 1..n |-> <<D[i], e.rets[i]>>], LAMBDA x : x[2])
+      New == NewOnes(e.air) IN
+  IF e.exc # "none" THEN <<"C01.Reject", "valid payloads raised " \o e.exc>>
+  ELSE IF Len(e.rets) # n THEN <<"C01.OnceInOrder", "not every write() returned">>
+  ELSE IF \E k \in 1..Len(e.air) : \A i \in 1..n : e.air[k].data # D[i] THEN <<"C02.OnlyOwnPayload", "foreign payload on air">>
+  ELSE IF \E i \in 1..n : ~e.rets[i] /\ Emitted(e.air, D[i]) THEN <<"C01.OnceInOrder", "a payload write() refused was transmitted">>
+  ELSE IF Len(New) < Len(Acc) THEN <<"C01.OnceInOrder", "write() returned True for a payload that never reached the peer">>
+  ELSE IF Len(New) > Len(Acc) THEN <<"C01.OnceInOrder", "a payload was delivered twice">>
+  ELSE IF \E i \in 1..Len(Acc) : New[i].data # Acc[i][1] THEN <<"C01.OnceInOrder", "payloads delivered out of order">>
+  ELSE IF \E i \in 1..(IF n < 3 THEN n ELSE 3) : ~e.rets[i] THEN <<"C01.OnceInOrder", "write() refused a payload although the TX FIFO had room">>
+  ELSE <<"ok", "">>
+
 ResendClause(e) ==
   LET air == e.air IN
   IF failed = None THEN
@@ -68,7 +85,6 @@ ResendClause(e) ==
   ELSE <<"ok", "">>
 
 \* what the peer's read() handed out after the call: exactly the newly delivered payloads, in order, on the addressed pipe
-NewOnes(air) == SelectSeq(air, LAMBDA p : p.new)
 DrainClause(e, prev) ==
   LET want == [i \in 1..Len(NewOnes(prev.air)) |->
                  <<C.rxpipe, IF C.rxdyn THEN NewOnes(prev.air)[i].data ELSE PadTrunc(NewOnes(prev.air)[i].data, C.rxpl)>>] IN
@@ -89,6 +105,7 @@ Step == /\ l <= Len(T.ev) /\ l' = l + 1 /\ tid' = tid
                                                  THEN OnAir(C, e.bufs[Len(e.bufs)]) ELSE None
              [] e.k = "resend" -> /\ verdict' = ResendClause(e)
                                   /\ failed' = IF Truthy(e.res) THEN None ELSE failed
+             [] e.k = "stream" -> verdict' = StreamClause(e) /\ failed' = None
              [] e.k = "drain" -> verdict' = DrainClause(e, T.ev[l - 1]) /\ failed' = failed
 TSpec == TInit /\ [][Step]_tvars
 Report == (verdict[1] # "ok" \/ l > Len(T.ev)) => PrintT("VERDICT " \o ToString(<<tid, l - 1, verdict[1], verdict[2]>>))
